@@ -323,6 +323,9 @@ func judge(r *mon.Rec, t *testing.T, sc scenario) {
 func grid(quick bool) []scenario {
 	var out []scenario
 	Ts := []time.Duration{time.Millisecond, 7 * time.Millisecond, 100 * time.Millisecond, 5 * time.Second}
+	if !quick {
+		Ts = append(Ts, 3*time.Microsecond, 33*time.Millisecond, 250*time.Millisecond, time.Second, 64*time.Second)
+	}
 	for _, fm := range []string{"nclient4", "nclient6"} {
 		for _, T := range Ts {
 			for n := 1; n <= 5; n++ {
